@@ -3,11 +3,15 @@
 //! compared with the uninterrupted run. Real ChainMonitor + SpvClient + tower; hook H2 provides the
 //! crash points. Lines:
 //!   CRREF <hist> <nsteps> <ncrashpoints> | {step tokens ;}* FINAL <tables> SENDS <n> {tx}*
-//!   CR <hist> <crash_idx> <label> <step> | restart=<0/1> id=<0/1> lkb=<h> tip=<h> REC <tables> FINAL <tables> SENDS <n> {tx}*
+//!   CR <hist> <crash_idx> <label> <step> | restart=<0/1> id=<0/1> lkb=<h> tip=<h> CRASHDB <tables> REC <tables> FINAL <tables> SENDS <n> {tx}*
+//!   CRTR <hist> <slots> <duration> <delta> <h0> <nops> ; {OP <step> <first crash point> <n labels> <model op> SC <script> SG <sig id>
+//!        TR <n> {micro kind}* DB <0|1> [<tables>] ;}*      the micro steps (durable statements by kind, RPCs, reply) the REAL code
+//!        went through in each operation of the uninterrupted run, from the H2 labels + the SQL trace of the tower's connection
 use std::io::Write;
 use std::path::PathBuf;
 use std::time::Duration;
 
+use verif_harness::evlog;
 use verif_harness::pollworld::{MonitorThread, SimChain};
 use verif_harness::rng::Rng;
 use verif_harness::simnode::RpcKind;
@@ -143,6 +147,9 @@ impl Sys {
         let tip = self.chain.header_at(tip_hash).expect("bootstrap tip known to the node");
         let last = self.chain.last_blocks(tip_hash, 100);
         let ok = self.w.restart(&last, tip.height);
+        if ok {
+            self.w.install_sql_trace();
+        }
         out.tok(format!("restart={}", ok as u8)).tok(format!("lkbboot={}", if lkb.is_some() { tip.height as i64 } else { -1 }));
         self.mon = Some(MonitorThread::spawn(self.chain.source.clone(), tip, &self.w));
         // "Get all the components up to date if there's a backlog of blocks"
@@ -170,6 +177,111 @@ impl Sys {
         drop(self.w);
         let _ = std::fs::remove_dir_all(dir);
     }
+}
+
+
+const WRITES: [&str; 16] = ["IU", "IA", "IT", "UU", "UA", "UT", "DU", "DA", "DT", "LKB", "KEY", "I?", "U?", "D?", "W?", "ROLLBACK"];
+
+/// one operation as the real code performed it: an optional block event, the micro kinds with the index
+/// of the crash point that precedes each, the range of crash points
+struct Seg {
+    head: Option<String>,
+    toks: Vec<(String, u64)>,
+    first: u64,
+    end: u64,
+}
+
+/// Places the events of one step between its crash-point labels [a, b) and canonicalises every
+/// (pre, post) pair to a statement kind: INSERT/UPDATE/DELETE x users/appointments/trackers, a transaction
+/// with the kinds inside, an RPC (send | getraw). A durable write outside any pair is UNBRACKETED.
+fn canon(labels: &[&'static str], events: &[(u64, String)], a: u64, b: u64) -> Vec<Seg> {
+    let is_write = |k: &str| WRITES.contains(&k);
+    let mut used = vec![false; events.len()];
+    let mut segs: Vec<Seg> = Vec::new();
+    let mut cur = Seg { head: None, toks: vec![], first: a, end: a };
+    let mut i = a;
+    let open_blocks = |i: u64, cur: &mut Seg, segs: &mut Vec<Seg>, used: &mut Vec<bool>| {
+        for (j, (c, k)) in events.iter().enumerate() {
+            if *c == i && !used[j] && (k.starts_with("BC:") || k.starts_with("BD:")) {
+                used[j] = true;
+                let done = std::mem::replace(cur, Seg { head: Some(k.clone()), toks: vec![], first: i, end: i });
+                if done.head.is_some() || !done.toks.is_empty() {
+                    segs.push(Seg { end: i, ..done });
+                }
+            }
+        }
+    };
+    while i < b {
+        open_blocks(i, &mut cur, &mut segs, &mut used);
+        let lab = labels[i as usize];
+        let post = labels.get(i as usize + 1).copied().unwrap_or("-");
+        let take = |cnt: u64, pred: &dyn Fn(&str) -> bool, used: &mut Vec<bool>| -> Vec<String> {
+            let mut v = vec![];
+            for (j, (c, k)) in events.iter().enumerate() {
+                if *c == cnt && !used[j] && pred(k) {
+                    used[j] = true;
+                    v.push(k.clone());
+                }
+            }
+            v
+        };
+        match lab {
+            "store:pre" | "write:pre" => {
+                let w = take(i + 1, &is_write, &mut used);
+                let mut tok = if w.is_empty() { "NOSQL".to_string() } else { w.join("&") };
+                let want_post = if lab == "store:pre" { "store:post" } else { "write:post" };
+                if post != want_post {
+                    tok.push_str("!nopost");
+                }
+                let ins = tok.starts_with('I') || tok == "LKB" || tok == "KEY";
+                if (lab == "store:pre") != ins {
+                    tok = format!("MISBRACKET:{tok}");
+                }
+                cur.toks.push((tok, i));
+                i += 2;
+            }
+            "rpc:pre" => {
+                let w = take(i + 1, &|k| k == "RG" || k == "RS", &mut used);
+                let mut tok = if w.is_empty() { "R?".to_string() } else { w.join("&") };
+                if post != "rpc:post" {
+                    tok.push_str("!nopost");
+                }
+                cur.toks.push((tok, i));
+                i += 2;
+            }
+            "txn-users:pre-commit" | "txn-appointments:pre-commit" => {
+                let w = take(i, &is_write, &mut used);
+                let mut tok = format!("T[{}]", w.join("+"));
+                if !post.ends_with(":post-commit") {
+                    tok.push_str("!nopost");
+                }
+                cur.toks.push((tok, i));
+                i += 2;
+            }
+            other => {
+                cur.toks.push((format!("?{other}"), i));
+                i += 1;
+            }
+        }
+    }
+    open_blocks(b, &mut cur, &mut segs, &mut used);
+    for (j, (_c, k)) in events.iter().enumerate() {
+        if !used[j] && is_write(k) {
+            cur.toks.push((format!("UNBRACKETED:{k}"), b));
+        }
+    }
+    cur.end = b;
+    segs.push(cur);
+    segs
+}
+
+fn script_tokens(sc: &[(u64, u8, i32)]) -> String {
+    let mut l = Line::new();
+    l.tok(sc.len());
+    for (t, g, s) in sc {
+        l.tok(t).tok(g).tok(s);
+    }
+    l.0
 }
 
 fn templates(rng: &mut Rng, thorough: bool) -> Vec<(Cfg, Vec<Step>)> {
@@ -222,7 +334,7 @@ fn templates(rng: &mut Rng, thorough: bool) -> Vec<(Cfg, Vec<Step>)> {
     // 6: a young tower: appointments accepted before the first new block is processed (F18)
     v.push((cfg, vec![reg(0), Step::Add(0, 1, 1, 101, 0), Step::Mine(vec![1]), Step::Mine(vec![]), Step::Poll, Step::Mine(vec![]), Step::Poll]));
     // random histories
-    let n = if thorough { 24 } else { 5 };
+    let n = if thorough { 1200 } else { 5 };
     for _ in 0..n {
         let mut s = vec![reg(0), reg(1)];
         let mut next_pen = 110u64;
@@ -267,11 +379,17 @@ fn templates(rng: &mut Rng, thorough: bool) -> Vec<(Cfg, Vec<Step>)> {
     v
 }
 
-fn run(hist: usize, cfg: Cfg, steps: &[Step], crash_at: Option<u64>, skip: Option<usize>, init: &[(u64, bitcoin::Block)], out: &mut dyn Write) -> u64 {
+fn run(hist: usize, cfg: Cfg, steps: &[Step], crash_at: Option<u64>, skip: Option<usize>, poll_after: Option<usize>, init: &[(u64, bitcoin::Block)], out: &mut dyn Write) -> u64 {
     teos_common::verif::reset();
     let mut sys = Sys::new(cfg, work_dir(&format!("{hist}")), init);
     // crash points are counted from here (the bootstrap's own writes are not part of the history)
     teos_common::verif::reset();
+    evlog::clear();
+    evlog::enable(true);
+    sys.w.install_sql_trace();
+    let reference = crash_at.is_none() && skip.is_none() && poll_after.is_none();
+    let mut oprecs: Vec<String> = Vec::new();
+    let mut last_end = 0u64;
     if let Some(c) = crash_at {
         teos_common::verif::arm(c);
     }
@@ -289,6 +407,10 @@ fn run(hist: usize, cfg: Cfg, steps: &[Step], crash_at: Option<u64>, skip: Optio
             if let Step::Add(_, _, key, pay, len) = s {
                 sys.w.make_blob(*key, *pay, *len, 1);
             }
+            if poll_after == Some(i) {
+                let mut l2 = Line::new();
+                let _ = sys.step(&Step::Poll, &mut l2);
+            }
             continue;
         }
         if let Step::Add(signer, loc, key, pay, len) = s {
@@ -302,9 +424,110 @@ fn run(hist: usize, cfg: Cfg, steps: &[Step], crash_at: Option<u64>, skip: Optio
         if matches!(s, Step::FailBlock(_)) {
             partial = true;
         }
+        let ev_before = evlog::snapshot().len();
+        let sc_now = sys.script.clone();
         let r = sys.step(s, &mut l);
-        if crash_at.is_none() && skip.is_none() {
-            line.tok(format!("s{i}:{}:{}", l.0.replace(' ', ","), sys.tables().replace(' ', ",")));
+        if reference {
+            let tables = sys.tables();
+            line.tok(format!("s{i}:{}:{}", l.0.replace(' ', ","), tables.replace(' ', ",")));
+            // the micro steps of this step, from the labels and the events
+            let after = teos_common::verif::count();
+            let labels = teos_common::verif::labels();
+            let events: Vec<(u64, String)> = evlog::snapshot().into_iter().skip(ev_before).collect();
+            let late = if before != last_end { format!(" LATE:{}", before - last_end) } else { String::new() };
+            last_end = after;
+            let sc_tok = script_tokens(&sc_now);
+            let model_op: Option<String> = match s {
+                Step::Api(Op::Register(u)) => Some(format!("R {u}")),
+                Step::Api(Op::Get { signer, class, loc }) => Some(format!("G {signer} {class} {loc}")),
+                Step::Api(Op::GetSub { signer, class }) => Some(format!("S {signer} {class}")),
+                Step::Add(signer, loc, key, pay, len) => {
+                    let b = sys.w.make_blob(*key, *pay, *len, 1);
+                    let ab = sys.w.blobs[b].1;
+                    Some(format!("A {signer} 0 {loc} {} {} {} 20 1", ab.key, ab.pay, ab.len))
+                }
+                _ => None,
+            };
+            let sg = {
+                let t: Vec<&str> = l.0.split(' ').collect();
+                if t.len() == 5 && t[0] == "AO" { t[2].parse::<i64>().unwrap_or(0).max(0) } else { 0 }
+            };
+            let segs = canon(&labels, &events, before, after);
+            let emit = |oprecs: &mut Vec<String>, op: &str, first: u64, n: u64, toks: &[String], db: Option<&str>| {
+                let mut o = format!("OP {i} {first} {n} {op} SC {sc_tok} SG {sg} TR {}", toks.len());
+                for t in toks {
+                    o.push(' ');
+                    o.push_str(t);
+                }
+                match db {
+                    Some(d) => o.push_str(&format!(" DB 1 {d}")),
+                    None => o.push_str(" DB 0"),
+                }
+                oprecs.push(o);
+            };
+            match (model_op, s) {
+                (Some(op), _) => {
+                    let mut toks: Vec<String> = segs.iter().flat_map(|g| g.toks.iter().map(|t| t.0.clone())).collect();
+                    if segs.iter().any(|g| g.head.is_some()) {
+                        toks.push("BLOCK-IN-API".into());
+                    }
+                    if r.is_ok() {
+                        toks.push("ACK".into());
+                    }
+                    if !late.is_empty() {
+                        toks.insert(0, late.trim().to_string());
+                    }
+                    emit(&mut oprecs, &op, before, after - before, &toks, Some(&tables));
+                }
+                (None, Step::Poll) => {
+                    let nseg = segs.len();
+                    for (si, g) in segs.iter().enumerate() {
+                        let mut toks: Vec<(String, u64)> = g.toks.clone();
+                        // the persisted tip: its own pseudo operation
+                        let lkb = if toks.last().map(|t| t.0 == "LKB").unwrap_or(false) { toks.pop() } else { None };
+                        let op = match &g.head {
+                            Some(h) => {
+                                let parts: Vec<&str> = h.split(':').collect();
+                                let hash: Option<bitcoin::BlockHash> = parts.get(1).and_then(|x| x.parse().ok());
+                                match (parts[0], hash.and_then(|h| sys.chain.ids.get(&h).cloned())) {
+                                    ("BC", Some((id, txs))) => {
+                                        let mut o = format!("C {id} {}", txs.len());
+                                        for t in txs {
+                                            o.push_str(&format!(" {t}"));
+                                        }
+                                        Some(o)
+                                    }
+                                    ("BD", Some(_)) => Some("D".to_string()),
+                                    _ => Some("X".to_string()),
+                                }
+                            }
+                            None => if toks.is_empty() { None } else { Some("X".to_string()) },
+                        };
+                        let last = si + 1 == nseg;
+                        if let Some(op) = op {
+                            let end = lkb.as_ref().map(|t| t.1).unwrap_or(g.end);
+                            let tk: Vec<String> = toks.iter().map(|t| t.0.clone()).collect();
+                            emit(&mut oprecs, &op, g.first, end - g.first, &tk, if last && lkb.is_none() { Some(&tables) } else { None });
+                        }
+                        if let Some((_, pos)) = lkb {
+                            emit(&mut oprecs, "P", pos, g.end - pos, &["LKB".to_string()], if last { Some(&tables) } else { None });
+                        }
+                    }
+                    if !late.is_empty() {
+                        emit(&mut oprecs, "X", before, 0, &[late.trim().to_string()], None);
+                    }
+                }
+                (None, _) => {
+                    if after != before || !late.is_empty() {
+                        emit(&mut oprecs, "X", before, after - before, &["LABELS-OUTSIDE-OPERATION".to_string()], None);
+                    }
+                }
+            }
+        }
+        if poll_after == Some(i) {
+            // the oracle for a crash in this step: a restart catches up with the chain at once
+            let mut l2 = Line::new();
+            let _ = sys.step(&Step::Poll, &mut l2);
         }
         if r.is_err() {
             let labels = teos_common::verif::labels();
@@ -312,6 +535,8 @@ fn run(hist: usize, cfg: Cfg, steps: &[Step], crash_at: Option<u64>, skip: Optio
             let _ = before;
             crashed = Some((i, label.to_string()));
             partial_at_crash = partial;
+            // the database as the kill left it (read through the separate read-only connection)
+            rec_line.tok("CRASHDB").tok(sys.tables());
             sys.recover(&mut rec_line);
             rec_line.tok(format!("lkb={}", sys.lkb_height())).tok(format!("tip={}", sys.chain.height()));
             rec_line.tok("REC").tok(sys.tables());
@@ -334,6 +559,21 @@ fn run(hist: usize, cfg: Cfg, steps: &[Step], crash_at: Option<u64>, skip: Optio
                     _ => "e",
                 })
                 .collect();
+            if reference {
+                let mut l = format!("CRTR {hist} {} {} {} {} {} ;", cfg.slots, cfg.duration, cfg.delta, verif_harness::world::INIT_HEIGHT, oprecs.len());
+                for o in &oprecs {
+                    l.push(' ');
+                    l.push_str(o);
+                    l.push_str(" ;");
+                }
+                writeln!(out, "{l}").unwrap();
+            }
+            if let Some(pi) = poll_after {
+                let kind = if skip.is_some() { "CRMINUSP" } else { "CRREFP" };
+                writeln!(out, "{kind} {hist} {pi} | FINAL {final_tables} SENDS {} {sends_s}", sends.len()).unwrap();
+                sys.shutdown();
+                return n;
+            }
             match skip {
                 None => writeln!(
                     out,
@@ -368,7 +608,7 @@ fn run(hist: usize, cfg: Cfg, steps: &[Step], crash_at: Option<u64>, skip: Optio
 fn main() {
     let args: Vec<String> = std::env::args().collect();
     if args.len() < 2 {
-        eprintln!("usage: crash <out-file> [shard nshards]");
+        eprintln!("usage: crash <out-file> [shard nshards | case <history> <crash point>]");
         std::process::exit(2);
     }
     let shard: u64 = args.get(2).and_then(|s| s.parse().ok()).unwrap_or(0);
@@ -381,22 +621,52 @@ fn main() {
     let mut rng = Rng::new(seed ^ 0xC03);
     let mut out = std::io::BufWriter::new(std::fs::File::create(&args[1]).unwrap());
     let ts = templates(&mut rng, thorough);
+    // `crash <out> case <hist> <crash point>`: only that history's reference runs and that one crash run
+    let only: Option<(usize, u64)> = if args.get(2).map(|s| s == "case").unwrap_or(false) {
+        Some((args[3].parse().expect("history"), args[4].parse().expect("crash point")))
+    } else {
+        None
+    };
     for (h, (cfg, steps)) in ts.iter().enumerate() {
-        if h as u64 % nshards != shard {
-            continue;
+        match only {
+            Some((oh, _)) => {
+                if oh != h {
+                    continue;
+                }
+            }
+            None => {
+                if h as u64 % nshards != shard {
+                    continue;
+                }
+            }
         }
-        let n = run(h, *cfg, steps, None, None, &init, &mut out);
-        // the same history without each API request (the oracle for a request lost in a crash)
+        let n = run(h, *cfg, steps, None, None, None, &init, &mut out);
+        // the same history without each API request (the oracle for a request lost in a crash); when blocks
+        // were mined and not yet polled at that point, also with the poll a restart would make at once
+        let mut pending = false;
         for (i, st) in steps.iter().enumerate() {
+            match st {
+                Step::Mine(_) | Step::Reorg(..) => pending = true,
+                Step::Poll => pending = false,
+                _ => {}
+            }
             if matches!(st, Step::Api(Op::Register(_)) | Step::Add(..)) {
-                run(h, *cfg, steps, None, Some(i), &init, &mut out);
+                run(h, *cfg, steps, None, Some(i), None, &init, &mut out);
+                if pending {
+                    run(h, *cfg, steps, None, None, Some(i), &init, &mut out);
+                    run(h, *cfg, steps, None, Some(i), Some(i), &init, &mut out);
+                }
             }
         }
         // every crash point of the history; template 4 has thousands of identical ones: sample its middle
+        if let Some((_, oc)) = only {
+            run(h, *cfg, steps, Some(oc), None, None, &init, &mut out);
+            continue;
+        }
         let stride = if n > 400 && !thorough { (n / 200).max(1) } else { 1 };
         let mut c = 0;
         while c < n {
-            run(h, *cfg, steps, Some(c), None, &init, &mut out);
+            run(h, *cfg, steps, Some(c), None, None, &init, &mut out);
             c += stride;
         }
     }
